@@ -1,6 +1,8 @@
 import ScsiVerif.Driver.Proto
 import ScsiVerif.Model.Compat
 import ScsiVerif.Std.T10
+import ScsiVerif.Model.Xfer
+import ScsiVerif.Model.Guards
 import ScsiVerif.Gen.Commands
 import ScsiVerif.Gen.Opcodes
 import ScsiVerif.Gen.Tables
@@ -89,6 +91,35 @@ def cmdOp (toks : List String) : Option String :=
     match Cmd.initCdbLen n with
     | .ok L => pure ("ok " ++ toString L)
     | .error x => pure (showErr x)
+  -- stdxfer <module> <cls> E… : the buffers the standard's transfer rule prescribes
+  | ["stdxfer", module, cls, env] => do
+    let e ← parseEnv env
+    let r ← (Std.xfers.find? (fun r => r.1 == module && r.2.1 == cls)).map (·.2.2)
+    match Xfer.expected e r with
+    | some (o, n) => pure ("ok dataout=" ++ showPVal o ++ " datain=" ++ toString n)
+    | none => pure (match r with | .paramList => "paramlist" | .ata => "ata" | _ => "none")
+  -- ata <tlen> <bb> <tdir> <ttype> <fet> <count> <bs> <extra|n> <data|n>
+  | ["ata", a, b, c, d, e, f, g, x, y] => do
+    let a ← a.toNat?; let b ← b.toNat?; let c ← c.toNat?; let d ← d.toNat?
+    let e ← e.toNat?; let f ← f.toNat?; let g ← g.toNat?
+    let x : Option Nat := x.toNat?
+    let y : Option Conv.Bytes := parseBytes y
+    let std := Std.ataBytes a b d e f g x
+    match Xfer.ataBuffers a b c d e f g x y with
+    | .ok (o, i) => pure ("ok dataout=" ++ toString o.length ++ " datain=" ++ toString i.length ++ " std=" ++ toString std)
+    | .error err => pure (showErr err)
+  | ["iscsixfer", a, b] => do
+    let a ← a.toNat?; let b ← b.toNat?
+    let r := Xfer.iscsiXfer a b
+    pure ("ok " ++ (match r.1 with | .none => "none" | .read => "read" | .write => "write") ++ " " ++ toString r.2)
+  | ["prdispatch", set, sa] => do
+    let st ← genSet set
+    let n ← sa.toNat?
+    match Compat.findOp st "PERSISTENT_RESERVE_IN" with
+    | none => pure "err AttributeError"
+    | some op => match Guards.prInDispatch op.sas n with
+      | .ok c => pure ("ok " ++ c)
+      | .error e => pure (showErr e)
   | ["t10op", name] => pure (match Std.lookup Std.t10Opcodes name with | some v => "ok " ++ toString v | none => "none")
   | ["t10sa", name] => pure (match Std.lookup Std.t10ServiceActions name with | some v => "ok " ++ toString v | none => "none")
   | ["samstatus", name] => pure (match Std.lookup Std.samStatus name with | some v => "ok " ++ toString v | none => "none")
